@@ -5,7 +5,8 @@
 // ESTABLISHED, the postcondition is the composition of the two contracts through the real `Approximation::and_then`.
 // Callees through the contracts they are verified against: repr_round_ref (SIG, float_to_prim_round), into_f32_internal /
 // into_f64_internal (SIG, float_to_f), convert_to_binary_once (lib/fp_once_stub.rs = the contract of float_to_prim_once).
-// KNOWN FINDING: for B != 2 the precondition excludes the ln / exp path of convert_base (lib/fp_spec.rs fp_cb_region).
+// Values beyond 2^+-4096 may reach the second stage as the stand-in +-2^+-4096 (far-range shortcut of convert_to_binary_once,
+// lib/fp_spec.rs fp_far); every other finite value of every base is covered without assumption about convert_base.
 #![allow(unused_imports, unused_variables, dead_code, non_snake_case, unused_mut, unused_parens, unused_braces)]
 use vstd::prelude::*;
 verus! {
@@ -18,11 +19,10 @@ pub trait Round: Copy {
     /// ghost: which of the six mode definitions the implementing type stands for
     spec fn md() -> Mode;
 }
-// the mode types used by name in convert.rs (their `round_low_part` is verified against these definitions in units
-// float_round_zero / float_round_halfeven)
-impl Round for mode::Zero { open spec fn md() -> Mode { Mode::Zero } }
+// the mode type used by name in to_f32 / to_f64 (its `round_low_part` is verified against this definition in unit
+// float_round_halfeven)
 impl Round for mode::HalfEven { open spec fn md() -> Mode { Mode::HalfEven } }
-use mode::{Zero, HalfEven};
+use mode::HalfEven;
 //@@ INCLUDE lib/round_float_repr.rs
 //@@ INCLUDE lib/conv_float.rs
 //@@ INCLUDE lib/conv_enc.rs
